@@ -1233,7 +1233,10 @@ def _short(v):
 
 
 def connect_kwargs(cfg, conn, keepalive, clean, extra=0):
-    ver = boot.v31 if cfg.get("version", 4) == 3 else boot.v311
+    level = cfg.get("version", 4)
+    if (extra & 0x80) and cfg.get("flip_version"):
+        level = 7 - level      # this connection speaks the other protocol version (an application falling back / upgrading)
+    ver = boot.v31 if level == 3 else boot.v311
     kw = dict(clientId="cid-%d" % conn.idx, keepalive=keepalive, cleanStart=bool(clean), version=ver)
     if extra & 1:
         kw.update(willTopic="will/té", willMessage="bye€", willQoS=(extra >> 3) % 3,
